@@ -35,7 +35,8 @@ RULE = (
     "wired directly, element-wise, and through reductions (consumer without MapSpec, consumer MapSpec not naming "
     "the argument, ':' axis, partial reduction of a 2-d output), optional tuple output and renames; expected "
     "outcome = all edges ref-compatible (source wrapped in Array[.] on reduced edges) <=> construction succeeds, "
-    "else TypeError; with validate_type_annotations=False construction always succeeds. A mismatch that is exactly "
+    "else TypeError whose message names an edge that is incompatible by ref; with validate_type_annotations=False "
+    "construction always succeeds. A mismatch that is exactly "
     "explained by a smallest set of modelled deviations (DEV_NAMES: tuple zip truncation, swapped arguments for a "
     "required-only Annotated, Annotated[union] source not split, constrained-TypeVar miss falling through, both-"
     "Annotated primaries compared out of context) is reported once per deviation in that deviation's own DEV-* bucket; "
@@ -548,27 +549,44 @@ def body_pipeline(data) -> Outcome:
     except Exception as e:  # noqa: BLE001
         out.fail(exc_bucket(e, "construction-raised" if validate else "unvalidated-construction-raised"), exc_detail(e))
         return out
-    if got_ok == want_ok:
-        return out
     desc = "; ".join(
         f"{p}->{c}:{arg}{'(reduced)' if red else ''} {show(s)} -> {show(r)} ref={ok}"
         for (p, c, arg, _, _, red), (s, r), ok in zip(edges, eff, compat)
     )
     if not validate:
-        out.fail("rejected-although-validation-disabled", desc + f" :: {exc_detail(err)}")
+        if not got_ok:
+            out.fail("rejected-although-validation-disabled", desc + f" :: {exc_detail(err)}")
         return out
-    # name the bucket: is the outcome what one of the modelled deviations predicts?
-    name = explain(lambda model: all(model(s, r) for s, r in eff) == got_ok)
-    for d in name:
-        out.labels.append(d)
-        out.fail(d, f"pipeline constructed={got_ok} :: {desc}")
-    if name:
-        pass
-    elif got_ok:
-        out.fail("pipeline-accepts-incompatible-edge", desc)
-    else:
-        out.fail("pipeline-rejects-compatible-edges", desc + f" :: {str(err)[:200]}")
+    if got_ok:
+        # accepted: the implementation found every edge compatible
+        if explicit_bad:
+            ds = diagnose([(s, r, True) for s, r in eff])
+            for d in ds:  # exactly what modelled deviations predict: their own buckets
+                out.labels.append(d)
+                out.fail(d, f"pipeline accepted :: {desc}")
+            if not ds:
+                out.fail("pipeline-accepts-incompatible-edge", desc)
+        return out
+    # rejected: the error names the edge the implementation found incompatible
+    m = _ERR.search(str(err))
+    idx = [
+        i for i, e in enumerate(edges) if m and (e[2], e[0], e[1]) == (m.group(1), m.group(2), m.group(3))
+    ]
+    if len(idx) != 1:
+        out.fail("pipeline-error-names-no-edge-of-the-pipeline", desc + f" :: {str(err)[:300]}")
+        return out
+    (i,) = idx
+    if compat[i]:
+        ds = diagnose([(eff[i][0], eff[i][1], False)])
+        for d in ds:
+            out.labels.append(d)
+            out.fail(d, f"pipeline rejected for {edges[i][2]} :: {desc}")
+        if not ds:
+            out.fail("pipeline-rejects-compatible-edge", f"rejected for {edges[i][2]} :: {desc}")
     return out
+
+
+_ERR = re.compile(r"Argument `(\w+)`\s+- Function `(\w+)\(\.\.\.\)` returns:.*?- Function `(\w+)\(\.\.\.\)` expects:", re.S)
 
 
 # ---- strategies ---------------------------------------------------------------------------------
